@@ -997,15 +997,6 @@ func (cfg *Config) expandUser(field string, moreFields bool) (prefix, rest strin
 	return u.HomeDir, rest
 }
 
-func findAllIndex(pat, name string, n int) [][]int {
-	expr, err := pattern.Regexp(pat, 0)
-	if err != nil {
-		return nil
-	}
-	rx := regexp.MustCompile(expr)
-	return rx.FindAllStringIndex(name, n)
-}
-
 var (
 	rxGlobStar        = regexp.MustCompile(`^[^/.][^/]*$`)
 	rxGlobStarDotGlob = regexp.MustCompile(`^[^/]*$`)
